@@ -114,3 +114,10 @@ TEXTS["C15"] = {
     "level_note": "Trusts the reference aggregator and the ingestion / field-update barriers of the verif hooks. Histories stay inside one retention window.",
     "technique": "stateful model-based property testing (rapid): alteration histories against a per-field-identity reference aggregator",
 }
+
+TEXTS["C02"] = {
+    "level_text": "Fault enumeration over crash points: the database runs in a child process that is killed (SIGKILL) at a named instrumented step of the insert / memstore / flush / offset-file / old-file-removal protocol at a chosen occurrence, or asynchronously after a chosen acknowledgement, over 1-3 rounds on one directory; TestC02Enum profiles each generated script and then kills it once at every (crash point, occurrence) it reached (bounded per script). After the final restart every table must equal the reference aggregation of the acknowledged inserts (+ any subset of in-flight ones). Generated pauses (VERIF_PAUSE_AT) place flushes inside multi-step inserts. Coverage per crash point is reported in the evidence labels; it does not cover power loss or un-instrumented instants other than by the asynchronous kills.",
+    "design_ref": "DESIGN.md section 4 C02",
+    "level_note": "Trusts the TRY/ACK protocol on the child's stdout, the verif crash points (which SIGKILL the process without running deferred code) and the reference aggregator with the pinned 2n-1 array rule. The child closes only a caught-up database because DB.Close can block while entries are still being handed to the row store (recorded in DESIGN.md as outside the listed properties).",
+    "technique": "fault injection driven by property-based generation (rapid): generated insert/flush scripts x enumerated crash points / random SIGKILLs in a child process, reference-model oracle after restart",
+}
